@@ -90,7 +90,7 @@ Prefixes == {<<>>, <<65, 45>>}
 Starts == {1, 2, 26, 27, 52, 53}
 Init == /\ \E st \in Styles, pf \in Prefixes, s \in Starts : ranges = <<[first |-> 0, style |-> st, prefix |-> pf, start |-> s]>>
         /\ n = 1
-AddRange == /\ Len(ranges) < 3
+AddRange == /\ Len(ranges) < 3 /\ n = 1
             /\ \E f \in (ranges[Len(ranges)].first + 1)..MaxPage, st \in {"D", "r", "A"}, s \in {1, 27} :
                  ranges' = Append(ranges, [first |-> f, style |-> st, prefix |-> <<>>, start |-> s])
             /\ UNCHANGED n
